@@ -107,6 +107,11 @@ def names_of(es, extra=()):
 def check_cnf(es, clauses, want_tt, names, what, text):
     """clauses /\\ assignment satisfiable  <=>  assignment in want_tt, for every assignment"""
     ids = atom_ids(es, names)
+    if not ids and any(c for c in clauses):
+        # no atom of the signature is known to the id pool under its name: the mapping this monitor relies on
+        # is not the one the library uses (any more) — no verdict
+        LOG.bump('cnf_monitor_not_attached')
+        return True
     LOG.bump('cnf_checked')
     aux = {abs(l) for c in clauses for l in c} - set(ids.values())
     if len(clauses) >= 2 or aux:
@@ -204,6 +209,9 @@ def install_mcs_contracts():
             LOG.bump('mcs_skipped_too_many_atoms')
             return
         ids = atom_ids(es, names)
+        if not ids and (wcnf.hard or wcnf.soft):
+            LOG.bump('mcs_monitor_not_attached')
+            return
         softset = {tuple(c) for c in wcnf.soft}
         soft_keys = [k for k, cl in es['nf_cnf_dict'].items()
                      if k not in ignore and k in conds and all(tuple(c) in softset for c in cl)]
